@@ -59,12 +59,60 @@ func c06(c *Ctx) {
 	}
 	// ---- R06.1 ----------------------------------------------------------------------
 	var dones []ssa.Instruction
+	doneArg := map[ssa.Instruction]ssa.Value{}
+	doneHelpers := map[*ssa.Function]bool{}
 	cut := map[ssa.Instruction]bool{}
+	isDone := func(cs engine.CallSite) bool {
+		return cs.Common().IsInvoke() && cs.Common().Method.Name() == "Done" && engine.IsNamed(cs.Common().Value.Type(), "imap", "Update")
+	}
 	for _, cs := range engine.Calls(apply) {
-		if cs.Common().IsInvoke() && cs.Common().Method.Name() == "Done" && engine.IsNamed(cs.Common().Value.Type(), "imap", "Update") {
-			dones = append(dones, cs.Instr)
-			cut[cs.Instr] = true
+		if cs.Instr.Parent() != apply {
+			continue
 		}
+		if isDone(cs) {
+			dones = append(dones, cs.Instr)
+			doneArg[cs.Instr] = cs.Common().Args[0]
+			cut[cs.Instr] = true
+			continue
+		}
+		// a helper that acknowledges on every path with the error it is given and hands that error back
+		g := cs.Common().StaticCallee()
+		if g == nil || len(g.Blocks) == 0 || !P.IsOwn(g) || g.Parent() != nil {
+			continue
+		}
+		var inner []engine.CallSite
+		for _, cs2 := range engine.Calls(g) {
+			if isDone(cs2) && cs2.Instr.Parent() == g {
+				inner = append(inner, cs2)
+			}
+		}
+		if len(inner) != 1 {
+			continue
+		}
+		icut := map[ssa.Instruction]bool{inner[0].Instr: true}
+		okHelper := true
+		ep, isParam := inner[0].Common().Args[0].(*ssa.Parameter)
+		if !isParam {
+			okHelper = false
+		}
+		for _, r := range engine.Returns(g) {
+			if engine.ReachesAvoiding(g, r, icut, nil) {
+				okHelper = false
+			}
+			if len(r.Results) != 1 || engine.ResultOf(r, 0) != ssa.Value(ep) {
+				okHelper = false
+			}
+		}
+		if engine.InstrReaches(inner[0].Instr, inner[0].Instr) {
+			okHelper = false
+		}
+		if !okHelper {
+			continue
+		}
+		doneHelpers[g] = true
+		dones = append(dones, cs.Instr)
+		doneArg[cs.Instr] = engine.ArgForParam(cs.Common(), g, engine.ParamIndex(g, ep))
+		cut[cs.Instr] = true
 	}
 	R.Check(len(dones) >= 1, "R06.1", c.name(apply)+"|has-Done", P.Pos(apply.Pos()), "apply acknowledges the update", "user.apply contains no update.Done call: updates are never acknowledged")
 	for _, ret := range engine.Returns(apply) {
@@ -72,8 +120,13 @@ func c06(c *Ctx) {
 			"every path to this return acknowledges the update", "a path reaches this return of user.apply without update.Done: the submitter waits forever")
 		// the acknowledged error is the returned error
 		if len(ret.Results) == 1 && len(dones) == 1 {
-			arg := dones[0].(ssa.CallInstruction).Common().Args[0]
-			R.Check(engine.ResultOf(ret, 0) == arg, "R06.1", c.name(apply)+"|Done-gets-returned-error", P.Pos(ret.Pos()),
+			arg := doneArg[dones[0]]
+			res := engine.ResultOf(ret, 0)
+			same := res == arg
+			if call, ok := res.(*ssa.Call); ok && ssa.Instruction(call) == dones[0] {
+				same = true // `return acknowledge(update, err)`: the helper returns the error it acknowledged
+			}
+			R.Check(same, "R06.1", c.name(apply)+"|Done-gets-returned-error", P.Pos(ret.Pos()),
 				"Done receives the error apply returns", "update.Done is called with a different value than the error user.apply returns (acknowledgement and outcome disagree)")
 		}
 	}
@@ -108,6 +161,18 @@ func c06(c *Ctx) {
 		if topFn(f) == apply || strings.HasPrefix(engine.RelPkg(P.OwnPkgPath(f)), "connector") {
 			continue
 		}
+		if doneHelpers[f] {
+			// the acknowledging helper of apply: it must have no other caller
+			only := true
+			for _, cs := range P.CallersOf(f) {
+				if topFn(cs.Fn) != apply {
+					only = false
+				}
+			}
+			if only {
+				continue
+			}
+		}
 		for _, cs := range engine.Calls(f) {
 			cc := cs.Common()
 			if cc.IsInvoke() && cc.Method.Name() == "Done" && (engine.IsNamed(cc.Value.Type(), "imap", "Update") || engine.IsNamed(cc.Value.Type(), "imap", "Waiter")) {
@@ -124,11 +189,36 @@ func c06(c *Ctx) {
 		found := false
 		for _, f := range engine.WithClosures(nu) {
 			for _, cs := range engine.Calls(f) {
-				if cs.Common().StaticCallee() != apply {
-					continue
+				callee := cs.Common().StaticCallee()
+				if callee != apply {
+					// a wrapper method that applies the update on every path (and reports the failure itself)
+					if callee == nil || len(callee.Blocks) == 0 || !P.IsOwn(callee) || topFn(callee) == apply {
+						continue
+					}
+					acut := map[ssa.Instruction]bool{}
+					for _, cs2 := range engine.Calls(callee) {
+						if cs2.Common().StaticCallee() == apply && cs2.Instr.Parent() == callee {
+							acut[cs2.Instr] = true
+						}
+					}
+					if len(acut) == 0 {
+						continue
+					}
+					must := true
+					for _, r := range engine.Returns(callee) {
+						if engine.ReachesAvoiding(callee, r, acut, nil) {
+							must = false
+						}
+					}
+					if !must {
+						continue
+					}
 				}
 				found = true
-				call := cs.Instr.(*ssa.Call)
+				call, isCall := cs.Instr.(*ssa.Call)
+				if !isCall {
+					continue
+				}
 				// the call must be in a loop, and from the call every path returns to the loop head
 				// unless it goes through a channel-closed / quit edge: approximated as: the block of the
 				// call reaches itself, and no Return is reachable from the call without re-entering the
